@@ -236,7 +236,12 @@ def do_check(run: Run, args):
             if kind == "cover":
                 ok = any(r["result"] == "sat" for _, r in lst)
                 run.cover_rows.append({"function": fn, "cover": cl, "reached": ok})
-                if not ok and tagged_elsewhere(c, cl, run.pid):
+                undecided = (not ok) and any(r["result"] not in ("sat", "unsat") for _, r in lst)
+                if undecided:
+                    # no path gave a model and at least one query timed out: reachability is undecided on this run (a contradictory precondition
+                    # would answer unsat, quickly); this is not a vacuity finding and not a violation
+                    run.notes.append(f"{fn}.{cl}: reachability undecided on this run (solver budget), not counted")
+                elif not ok and tagged_elsewhere(c, cl, run.pid):
                     run.notes.append(f"{fn}.{cl} unreachable, but it is a witness clause of {c.property_clauses.get(cl)} only")
                 elif not ok:
                     base = load_baseline().get(run.pid, [])
